@@ -251,7 +251,7 @@ func runC08(c *Ctx) {
 		}
 		for _, call := range callsToFn(fn, w.prepareWrite) {
 			in := call.(ssa.Instruction)
-			from := allowedStates(in.Block(), w.state, nStates)
+			from := allowedStatesCtx(p, in, w.state, nStates, 2)
 			c.check(len(from) == 1 && from[w.stActive], fn, "prepareWrite", in.Pos(), "frames are queued only in StateActive",
 				"a frame is queued for writing in states "+w.names(from)+": data or pong frames can follow our Close frame on the wire")
 		}
@@ -315,6 +315,40 @@ func runC08(c *Ctx) {
 		normal, _ := constantInt(p.Const("codec/websocket", "CloseNormal"))
 		protoErr, _ := constantInt(p.Const("codec/websocket", "CloseProtocolError"))
 		utf8Valid := p.ExtFunc("unicode/utf8", "Valid")
+		isCloseLit := func(l Lit) bool {
+			op, x, y, isCmp := l.cmp()
+			if isCmp && op == token.EQL && isConstInt(y, opClose) {
+				if call, ok := strip(x).(*ssa.Call); ok && isCallToFn(call, w.opcodeM) {
+					return true
+				}
+			}
+			return false
+		}
+		// the close state machine may live in an unexported helper that the Close case (and nothing else) calls with the frame
+		var frameVal ssa.Value = fn.Params[1]
+		closeImplied := false
+		if len(callsToFn(fn, w.prepareClose)) == 0 {
+			for _, in := range allCalls(fn) {
+				h := in.Call.StaticCallee()
+				if !isHelperOf(fn, h) || len(callsToFn(h, w.prepareClose)) == 0 || len(p.callers(h)) != 1 {
+					continue
+				}
+				guarded := false
+				for _, l := range guardsOf(in.Block()) {
+					if isCloseLit(l) {
+						guarded = true
+					}
+				}
+				for i, a := range in.Call.Args {
+					if guarded && strip(a) == ssa.Value(fn.Params[1]) && i < len(h.Params) {
+						fn, frameVal, closeImplied = h, h.Params[i], true
+					}
+				}
+				if closeImplied {
+					break
+				}
+			}
+		}
 		paths, overflow := enumPaths(fn)
 		if overflow {
 			c.unproven(fn, "paths", fn.Pos(), "too many paths")
@@ -386,7 +420,7 @@ func runC08(c *Ctx) {
 						return fmt.Sprint(k)
 					}
 				}
-				if isCallToFn(call, w.payloadM) && (strip(call.Call.Args[0]) == ssa.Value(fn.Params[1]) || frameParams[strip(call.Call.Args[0])]) {
+				if isCallToFn(call, w.payloadM) && (strip(call.Call.Args[0]) == frameVal || frameParams[strip(call.Call.Args[0])]) {
 					return "echo" // Payload() of the received frame, or of the helper parameter bound to that frame
 				}
 			}
@@ -404,13 +438,10 @@ func runC08(c *Ctx) {
 			if path.Panics {
 				continue
 			}
-			isClose, isActive := false, false
+			isClose, isActive := closeImplied, false
 			for _, l := range path.Lits {
-				op, x, y, isCmp := l.cmp()
-				if isCmp && op == token.EQL && isConstInt(y, opClose) {
-					if call, ok := strip(x).(*ssa.Call); ok && isCallToFn(call, w.opcodeM) {
-						isClose = true
-					}
+				if isCloseLit(l.Lit) {
+					isClose = true
 				}
 				if k, eq, ok := enumTest(l.Lit, w.state); ok && eq && k == w.stActive {
 					isActive = true
@@ -452,7 +483,7 @@ func runC08(c *Ctx) {
 							echo[h.Params[i]] = true
 						}
 						// the frame itself is handed to the helper: f.Payload() inside it is the received payload
-						if strip(a) == ssa.Value(fn.Params[1]) && i < len(h.Params) {
+						if strip(a) == frameVal && i < len(h.Params) {
 							frameParams[h.Params[i]] = true
 						}
 					}
